@@ -632,6 +632,7 @@ pub fn all_templates(seed: u64, quick: bool) -> Vec<Tpl> {
     v.extend(fixed());
     v.extend(d21_regressions());
     v.extend(pending_cases(quick).into_iter().map(|c| c.tpl));
+    v.extend(capture_positions());
     v
 }
 
@@ -774,6 +775,8 @@ fn fcmp(x: PX) -> PX {
 struct JumpSpec {
     cond: &'static str,
     brk: bool,
+    /// render the jump block as the variable `cap` instead (capture-position family)
+    cap: bool,
 }
 
 fn px_src(e: &PX, j: &JumpSpec, lvl: usize) -> String {
@@ -783,6 +786,7 @@ fn px_src(e: &PX, j: &JumpSpec, lvl: usize) -> String {
     };
     match e {
         PX::Leaf(_, s) => s.clone(),
+        PX::Jump(..) if j.cap => "cap".to_string(),
         PX::Jump(_, v) => jump_block(j.cond, j.brk, v),
         PX::JumpC(c, b, _, v) => jump_block(c, *b, v),
         PX::Seq(_, fmt, args) => {
@@ -874,7 +878,7 @@ fn ps_sx(s: &PS, j: &JumpSpec) -> String {
 
 const PENDING_DECLS: &str = "fn add3(a: int, b: int, c: int) -> int {\n  a + b + c\n}\nfn g2(a: int, u: void, b: int) -> int {\n  a * 2 + b\n}\nfn fadd(a: float, b: float) -> float {\n  a + b\n}\nfn twice(a: int) -> int {\n  a * 2\n}\n\
 type Pq = {\n  a: int\n  z: void\n  b: int\n}\ntype Vq = Aa(int, int) | Bb\ntype Bx = {\n  q: int\n}\nextend Bx {\n  fn plus(self, k: int) -> int {\n    self.q + k\n  }\n}\n\
-type Gd = {\n  cells: array<int>\n}\nimplement Index for Gd {\n  fn index_get(self, idx: int) -> int {\n    self.cells[idx]\n  }\n  fn index_set(self, idx: int, val: int) -> void {\n    self.cells[idx] = val\n  }\n}\nlet fs = [twice, twice]\n";
+type Gd = {\n  cells: array<int>\n}\nimplement Index for Gd {\n  fn index_get(self, idx: int) -> int {\n    self.cells[idx]\n  }\n  fn index_set(self, idx: int, val: int) -> void {\n    self.cells[idx] = val\n  }\n}\n";
 
 /// (name, expression of type int built around the jump block, its value in iteration i when the jump is not taken)
 pub fn pending_contexts() -> Vec<(&'static str, PX, fn(i64) -> i64)> {
@@ -970,6 +974,58 @@ pub fn pending_contexts() -> Vec<(&'static str, PX, fn(i64) -> i64)> {
     v
 }
 
+/// capture-position family (C19 / C03, seed C19-r3): an outer variable whose ONLY use inside a lambda sits at one given
+/// sub-expression position — every context of `pending_contexts` (then/else/condition of `if`, scrutinee/arms of
+/// `match`, each operand of every operator, call / method / function-value arguments, constructor components,
+/// array / index / right-hand side of every assignment form, loop heads and bodies, a nested lambda body) with the
+/// hole filled by the captured variable; directly in a lambda, in a lambda nested in a lambda, and in a lambda defined
+/// inside a function.  The capture analysis has to find the variable there (otherwise the compiler panics or the
+/// lambda reads a wrong slot); expected value from the context's Rust oracle.
+pub fn capture_positions() -> Vec<Tpl> {
+    fn hole(e: &PX) -> Option<String> {
+        match e {
+            PX::Jump(_, v) => Some(v.clone()),
+            PX::Leaf(..) | PX::JumpC(..) => None,
+            PX::Seq(_, _, a) => a.iter().find_map(hole),
+            PX::Pre(_, _, _, a) | PX::Un(_, _, a) | PX::Fn(a) => hole(a),
+            PX::If(_, c, t, f) => hole(c).or_else(|| hole(t)).or_else(|| hole(f)),
+            PX::OrAnd(_, a, b) => hole(a).or_else(|| hole(b)),
+            PX::Match(_, s, arms) => hole(s).or_else(|| arms.iter().find_map(|(_, a)| hole(a))),
+            PX::Block(_, ss) => ss.iter().find_map(|s| match s {
+                PS::Expr(e) | PS::Let(_, _, e) | PS::Assign(_, e) | PS::Compound(_, _, e) => hole(e),
+                PS::AssignField(o, _, e) | PS::CompoundField(o, _, _, e) => hole(o).or_else(|| hole(e)),
+                PS::AssignIndex(a, i, e) | PS::CompoundIndex(a, i, _, e) => hole(a).or_else(|| hole(i)).or_else(|| hole(e)),
+                PS::While(c, b) | PS::For(_, c, b) => hole(c).or_else(|| hole(&PX::Block(false, b.clone()))),
+                PS::Break | PS::Continue => None,
+            }),
+        }
+    }
+    let j = JumpSpec { cond: "false", brk: false, cap: true };
+    let mut v = vec![];
+    for (name, e, contrib) in pending_contexts() {
+        // the hole's value must be a closed expression (contexts whose hole names a local of the context are skipped)
+        let Some(val) = hole(&e) else { continue };
+        if ["a", "p", "g", "w < 1"].contains(&val.as_str()) {
+            continue;
+        }
+        // both arms of `match-arm` hold the hole with different values: one variable cannot stand for both
+        if name == "match-arm" || name == "match-as-right-operand" {
+            continue;
+        }
+        let body = px_src(&e, &j, 1);
+        let exp = format!("{}\nend\n", contrib(1) + contrib(3));
+        let forms: [(&str, String); 3] = [
+            ("lambda", format!("let cap = {val}\nlet f = (i: int) -> {body}\nprintln(f(1) + f(3))\nprintln(\"end\")\n")),
+            ("nested-lambda", format!("let cap = {val}\nlet f = (i: int) -> {{\n  let g = () -> {body}\n  g()\n}}\nprintln(f(1) + f(3))\nprintln(\"end\")\n")),
+            ("lambda-in-function", format!("fn run() -> int {{\n  let cap = {val}\n  let f = (i: int) -> {body}\n  f(1) + f(3)\n}}\nprintln(run())\nprintln(\"end\")\n")),
+        ];
+        for (form, main) in forms {
+            v.push(tpl(format!("capture-position {name} / {form}"), "capture-position", &["C19", "C03"], format!("{PENDING_DECLS}{main}"), Expect::Out(exp.clone())));
+        }
+    }
+    v
+}
+
 pub struct PendingCase {
     pub tpl: Tpl,
     /// `pending …` request of the Lean model
@@ -978,7 +1034,7 @@ pub struct PendingCase {
 
 /// the loop (and its iterations 1..=4) around `body`
 fn pending_program(name: &str, e: &PX, contrib: fn(i64) -> i64, lp: usize, brk: bool, operand_placement: bool, in_fn: bool) -> PendingCase {
-    let j = JumpSpec { cond: if brk { "i == 3" } else { "i == 2" }, brk };
+    let j = JumpSpec { cond: if brk { "i == 3" } else { "i == 2" }, brk, cap: false };
     let body: Vec<PS> = if operand_placement {
         vec![PS::Assign("acc", seq("({0} + ({1} * {2}))", vec![leaf("acc"), leaf("i"), e.clone()]))]
     } else {
@@ -1027,7 +1083,7 @@ fn pending_program(name: &str, e: &PX, contrib: fn(i64) -> i64, lp: usize, brk: 
 /// an array literal longer than 65535 elements: `ConstructArray(65535)`, then `Duplicate; element; ArrayPush` for
 /// every further element — the jump block is one of those, with the array and its duplicate pending
 fn pending_big_array(brk: bool) -> PendingCase {
-    let j = JumpSpec { cond: if brk { "i == 3" } else { "i == 2" }, brk };
+    let j = JumpSpec { cond: if brk { "i == 3" } else { "i == 2" }, brk, cap: false };
     let zeros = vec!["0"; 65535].join(", ");
     let src = format!(
         "var acc = 0\nlet r = (100 + {{\n  for i in [1, 2, 3, 4] {{\n    let big = [{zeros}, i, {}, 7]\n    acc = (acc + (i * (big[65536] + big[65535])))\n  }}\n  acc\n}})\nprintln(r)\nprintln(\"end\")\n",
